@@ -297,11 +297,14 @@ def request_bytes(req):
     return head + b"\r\n" + body
 
 
-def do_request(host, port, req, deadline):
+def do_request(host, port, req, deadline, hold=None):
     """one client connection: send the request bytes (optionally in pieces / closing early), read
-    everything the server sends until it closes"""
+    everything the server sends until it closes. hold = (sent, release): after sending, signal `sent`
+    and keep the connection open and silent until `release` is set (a client that stalls mid-request)."""
     s = connect(host, port, deadline)
     if s is None:
+        if hold:
+            hold[0].set()
         return {"refused": True, "raw": "", "eof": False, "reset": False}
     try:
         local = list(s.getsockname())
@@ -324,6 +327,9 @@ def do_request(host, port, req, deadline):
                 s.close()
                 return {"refused": False, "raw": "", "eof": False, "reset": False, "aborted": True, "client": local,
                         "server": peer, "send_error": None}
+            if hold:
+                hold[0].set()
+                hold[1].wait(max(0.0, deadline - time.monotonic()))
             if req.get("half_close"):
                 s.shutdown(socket.SHUT_WR)
         except socket.timeout:
@@ -336,7 +342,27 @@ def do_request(host, port, req, deadline):
         return {"refused": False, "raw": raw.hex(), "eof": eof, "reset": reset, "client": local, "server": peer,
                 "send_error": send_error}
     finally:
+        if hold:
+            hold[0].set()
         s.close()
+
+
+STARVE_S = float(os.environ.get("VERIF_HTTP_STARVE_S", "10"))
+
+
+def serving_thread_busy_with_a_request(baseline):
+    """positive evidence that connections are handled on the accepting thread itself: the server's main
+    thread (not a per-request worker) is inside socketserver's finish_request. Returns a stack summary or None."""
+    frames = sys._current_frames()
+    for t in main_threads(baseline):
+        f = frames.get(t.ident)
+        names = []
+        while f is not None:
+            names.append(f.f_code.co_name)
+            f = f.f_back
+        if "serve_forever" in names and "finish_request" in names:
+            return {"thread": t.name, "stack": names[:12]}
+    return None
 
 
 # --------------------------------------------------------------------------- threads
@@ -402,8 +428,60 @@ def run_exchange(case):
                 except Exception as e:  # noqa
                     errors.append(("error", repr(e)))
 
-            if len(phase) == 1:
+            holders = [i for i, r in enumerate(phase) if r.get("hold")]
+            if len(phase) == 1 and not holders:
                 work(0, phase[0])
+            elif holders:
+                # stalled clients: they connect, send their (incomplete) bytes and stay silent; only then the
+                # other clients of the phase send their requests, which must be answered while the stalled
+                # connections are still open; afterwards the stalled ones are released
+                release = threading.Event()
+                sent = {i: threading.Event() for i in holders}
+
+                def hwork(i, req):
+                    try:
+                        host = client_host_for(bind, req.get("client"))
+                        results[i] = do_request(host, port, req, deadline, hold=(sent[i], release))
+                    except InfraTimeout as e:
+                        errors.append(("timeout", str(e)))
+                    except Exception as e:  # noqa
+                        errors.append(("error", repr(e)))
+                    finally:
+                        sent[i].set()
+
+                def owork(i, req):
+                    try:
+                        host = client_host_for(bind, req.get("client"))
+                        results[i] = do_request(host, port, req, min(deadline, time.monotonic() + STARVE_S))
+                    except InfraTimeout as e:
+                        busy = serving_thread_busy_with_a_request(baseline)
+                        if busy:
+                            results[i] = {"starved": True, "refused": False, "raw": "", "eof": False, "reset": False,
+                                          "evidence": busy}
+                        else:
+                            errors.append(("timeout", str(e)))
+                    except Exception as e:  # noqa
+                        errors.append(("error", repr(e)))
+
+                hths = [threading.Thread(target=hwork, args=(i, phase[i]), name=f"vh-client-{i}") for i in holders]
+                for t in hths:
+                    t.start()
+                for i in holders:
+                    sent[i].wait(IO_DEADLINE_S)
+                time.sleep(0.05)
+                oths = [threading.Thread(target=owork, args=(i, r), name=f"vh-client-{i}")
+                        for i, r in enumerate(phase) if i not in holders]
+                for t in oths:
+                    t.start()
+                for t in oths:
+                    t.join(IO_DEADLINE_S + 5)
+                    if t.is_alive():
+                        errors.append(("timeout", "client thread"))
+                release.set()
+                for t in hths:
+                    t.join(IO_DEADLINE_S + 5)
+                    if t.is_alive():
+                        errors.append(("timeout", "client thread"))
             else:
                 barrier = threading.Barrier(len(phase))
 
